@@ -6,14 +6,14 @@ from symx import core as sx, kernels
 from symx.core import var, assume, eq, le, sa, band, bor, alleq, close
 
 META = dict(
-    explanation='displacement(), slip_vector.pyx (re-translated), disregistry() and DifferentialDisplacement.solve are executed on a concrete reference crystal (bcc 2x4x2, 32 atoms; concrete neighbour list) with a SYMBOLIC imposed deformation: an arbitrary bounded displacement of individual atoms (displacement through the periodic boundaries), a rigid slip vector of the upper half crystal (3 symbolic components), a common symbolic translation and a consistent renumbering.',
-    functions=['atomman/core/displacement.py:displacement', 'atomman/core/dvect.pyx:dvect_c', 'atomman/defect/slip_vector.pyx:slip_vector,slip_vector_c', 'atomman/defect/disregistry.py:disregistry', 'atomman/defect/DifferentialDisplacement.py:solve',
+    explanation='Strain.pyx (re-translated: set_p_vectors, solve_G with match_pq and the least-squares solve, strain/rotation/invariants, solve_nye) is executed on a simple-cubic cluster with a SYMBOLIC deformation gradient (nine entries) and translation: G == F^-T entry by entry; strain, rotation, invariants and angular velocity are decided for an ARBITRARY injected G; the Nye tensor is decided for an arbitrary injected LINEAR G field (exact gradient; zero for uniform G). displacement(), slip_vector.pyx (re-translated), disregistry() and DifferentialDisplacement.solve are executed on a concrete reference crystal (bcc 2x4x2, 32 atoms; concrete neighbour list) with a SYMBOLIC imposed deformation: an arbitrary bounded displacement of individual atoms (displacement through the periodic boundaries), a rigid slip vector of the upper half crystal (3 symbolic components), a common symbolic translation and a consistent renumbering.',
+    functions=['atomman/defect/Strain.pyx:Strain.__init__,set_p_vectors,build_p_vectors,solve_G,match_pq,strain_c,rotation_c,invariant1_c,invariant2_c,invariant3_c,angularvelocity_c,solve_nye,dG_c,nye_c', 'atomman/core/displacement.py:displacement', 'atomman/core/dvect.pyx:dvect_c', 'atomman/defect/slip_vector.pyx:slip_vector,slip_vector_c', 'atomman/defect/disregistry.py:disregistry', 'atomman/defect/DifferentialDisplacement.py:solve',
                'atomman/core/System.py:dvect'],
-    bounds=dict(quick='bcc a=2.87 supercell 2x4x2 (32 atoms), first-shell cutoff; displacement of 3 chosen atoms (one next to a periodic face) with |u_k| <= 0.2 a; rigid slip |s_k| <= 0.2 a of the half crystal above a plane between layers, periodicity (T,F,T); symbolic common translation |t_k| <= 0.5 a (atoms may leave the cell); one cyclic renumbering; slip vector also with free surfaces cutting the slip plane (pbc FFT, TFF, FFF); displacement() for two concrete homogeneous deformations (stretches and shears up to 3%) of a 16-atom cell with symbolic translation, symbolic extra displacement of two atoms, atoms stored as periodic images, both box_reference choices; DifferentialDisplacement with reference 0 and 1',
+    bounds=dict(quick='Strain: 8-atom simple-cubic cluster (3 neighbours each) in a non-periodic cell, F = 1 + E with nine symbolic |E_ij| <= 0.03, translation |t_k| <= 0.5, theta_max 27; injected G: 2 atoms x 9 symbolic entries in [-2,2]; injected linear field: G0 in [-2,2]^9, gradient in [-1,1]^27 on the sc and bcc (9-atom, two-shell) clusters. bcc a=2.87 supercell 2x4x2 (32 atoms), first-shell cutoff; displacement of 3 chosen atoms (one next to a periodic face) with |u_k| <= 0.2 a; rigid slip |s_k| <= 0.2 a of the half crystal above a plane between layers, periodicity (T,F,T); symbolic common translation |t_k| <= 0.5 a (atoms may leave the cell); one cyclic renumbering; slip vector also with free surfaces cutting the slip plane (pbc FFT, TFF, FFF); displacement() for two concrete homogeneous deformations (stretches and shears up to 3%) of a 16-atom cell with symbolic translation, symbolic extra displacement of two atoms, atoms stored as periodic images, both box_reference choices; DifferentialDisplacement with reference 0 and 1',
                 thorough='same plus pbc TTT (two slip planes)'),
-    outside=['Strain / nye_tensor (solve_G, solve_nye: lstsq on neighbour-vector matrices selected by an angular matching loop; with a symbolic deformation gradient every comparison forks, with a concrete one nothing is symbolic)',
+    outside=['Strain on rotated crystals (axes=), reference-system p vectors and two-shell p lists with a SYMBOLIC deformation gradient (the angular comparisons of match_pq are not decided by intervals there and each costs a nonlinear query: > 400 s per case) - concrete samples only (strain_samples)',
              'a SYMBOLIC deformation gradient in displacement() (symbolic cell in the minimum-image kernel: 16/16 queries unknown after 380 s; the deformation is enumerated concretely instead)', 'other reference crystals and sizes (concrete reference: the verdict is per reference crystal, for all deformation amplitudes in the bound)', 'IEEE-754 rounding'],
-    lemmas=[], cuts=['np.interp in disregistry replaced by its piecewise-linear definition for concrete abscissae and symbolic ordinates'],
+    lemmas=[], cuts=['Strain: the lattice correspondence tensor is injected (private attribute) for the strain-formula and Nye-tensor cases; np.linalg.lstsq on symbolic operands is executed as the normal equations with an adjugate inverse (full-rank neighbourhoods only)', 'np.interp in disregistry replaced by its piecewise-linear definition for concrete abscissae and symbolic ordinates'],
     assumptions=['displacements below a quarter of the smallest cell width so that no periodic image switches'], trusted=['pyx2py translator (validated in C02/C03)'],
 )
 BIND = ['atomman.core.Box', 'atomman.core.System', 'atomman.core.Atoms', 'atomman.core.displacement', 'atomman.defect.disregistry', 'atomman.defect.DifferentialDisplacement', 'atomman.core.NeighborList']
@@ -210,6 +210,170 @@ def h_dd(reference=0):
     return fn
 
 
+# ------------------------------------------------------------------------------------------------ Strain / Nye tensor
+def _cluster(kind):
+    """small non-periodic clusters in which every atom has at least three non-coplanar neighbours
+    sc : the 8 corners of a simple-cubic cell (3 neighbours each, exactly determined least squares)
+    bcc: centre + 8 corners of a bcc cell with first and second shell (centre 8, corners 4 neighbours: over-determined)"""
+    import atomman as am
+    if kind == 'sc':
+        pos = np.array([[i, j, k] for i in (0, 1) for j in (0, 1) for k in (0, 1)], dtype=float) * A
+        cutoff = 1.1 * A
+        pv = np.array([[1, 0, 0], [-1, 0, 0], [0, 1, 0], [0, -1, 0], [0, 0, 1], [0, 0, -1]], dtype=float) * A
+    else:
+        pos = np.array([[0, 0, 0]] + [[i, j, k] for i in (-.5, .5) for j in (-.5, .5) for k in (-.5, .5)], dtype=float) * A
+        cutoff = 1.1 * A
+        pv = np.array([[i, j, k] for i in (-.5, .5) for j in (-.5, .5) for k in (-.5, .5)] + [[1, 0, 0], [-1, 0, 0], [0, 1, 0], [0, -1, 0], [0, 0, 1], [0, 0, -1]], dtype=float) * A
+    box = am.Box(vects=np.eye(3) * 10 * A, origin=[-5 * A] * 3)
+    return pos, cutoff, pv, box
+
+
+def _symF(bound=0.03):
+    return np.array([[(1.0 if i == j else 0.0) + var(f'e{i}{j}', -bound, bound) for j in range(3)] for i in range(3)], dtype=object)
+
+
+def h_strain_G(kind, how, bound=0.03):
+    """homogeneous deformation gradient F (nine symbolic entries) imposed on a cluster: G == F^-T at every atom
+    how = 'plist' : one list of p vectors for all atoms;  'axes' : the crystal is rotated in the system, the p vectors are given in
+    crystal axes together with axes=;  'base' : p vectors built from the undeformed reference system"""
+    def fn():
+        import atomman as am
+        pos, cutoff, pv, box = _cluster(kind)
+        n = len(pos)
+        pbc = (False, False, False)
+        if how == 'axes':
+            axes = np.array([[3, 4, 0], [-4, 3, 0], [0, 0, 5]], dtype=float)
+            T = axes / np.linalg.norm(axes, axis=1)[:, None]
+            pos = np.inner(pos, T)                       # the crystal as it sits in the system frame
+        s0 = am.System(atoms=am.Atoms(pos=pos), box=box, pbc=pbc)
+        nl = am.NeighborList(system=s0, cutoff=cutoff)
+        F = _symF(bound)
+        t = [var(f't{j}', -0.5, 0.5) for j in range(3)]
+        pos1 = np.empty((n, 3), dtype=object)
+        for i in range(n):
+            for j in range(3): pos1[i, j] = sum(F[j, k] * float(pos[i, k]) for k in range(3)) + t[j]
+        s1 = am.System(atoms=am.Atoms(pos=sa(pos1)), box=box, pbc=pbc)
+        try:
+            if how == 'plist': st = am.defect.Strain(s1, neighbors=nl, p_vectors=pv.tolist(), theta_max=27)
+            elif how == 'axes': st = am.defect.Strain(s1, neighbors=nl, p_vectors=pv.tolist(), axes=axes, theta_max=27)
+            else: st = am.defect.Strain(s1, neighbors=nl, basesystem=s0, baseneighbors=nl, theta_max=27)
+            G = st.G
+        except ValueError as e:
+            return [(f'Strain accepts the documented p-vector input ({how}) and solves G [{type(e).__name__}: {e}]', False)]
+        ob = [('G: one 3x3 tensor per atom', np.shape(G) == (n, 3, 3))]
+        if np.shape(G) != (n, 3, 3): return ob
+        for i in range(n):
+            # G == F^-T  <=>  F^T G == 1
+            for a in range(3):
+                for b in range(3):
+                    ob.append((f'atom {i}: lattice correspondence tensor G == inverse transpose of the imposed deformation gradient: (F^T G)[{a},{b}] == {int(a == b)}',
+                               close(sum(F[k, a] * G[i, k, b] for k in range(3)), 1.0 if a == b else 0.0, 1e-9, 1.0)))
+        return ob
+    return fn
+
+
+def h_strain_formulas():
+    """strain, rotation, invariants and angular velocity as functions of an ARBITRARY lattice correspondence tensor (cut: G injected)"""
+    def fn():
+        import atomman as am
+        pos, cutoff, pv, box = _cluster('sc')
+        s0 = am.System(atoms=am.Atoms(pos=pos), box=box, pbc=(False, False, False))
+        nl = am.NeighborList(system=s0, cutoff=cutoff)
+        st = am.defect.Strain(s0, neighbors=nl, p_vectors=pv.tolist())
+        n = len(pos)
+        G = np.empty((n, 3, 3), dtype=object)
+        for i in range(n):
+            for a in range(3):
+                for b in range(3):
+                    G[i, a, b] = var(f'g{i}_{a}{b}', -2.0, 2.0) if i < 2 else float((1.0 if a == b else 0.0) + 0.01 * (i + a - 2 * b))
+        st._Strain__G = sa(G) if sx.ctx().concrete is None else np.array(G, dtype=float)
+        E, R, I1, I2, I3, W = st.strain, st.rotation, st.invariant1, st.invariant2, st.invariant3, st.angularvelocity
+        ob = [('shapes', np.shape(E) == (n, 3, 3) and np.shape(R) == (n, 3, 3) and np.shape(I1) == (n,) and np.shape(I2) == (n,) and np.shape(I3) == (n,) and np.shape(W) == (n,))]
+        I = np.eye(3)
+        for i in range(n):
+            e = [[((I[a, b] - G[i, a, b]) + (I[b, a] - G[i, b, a])) / 2 for b in range(3)] for a in range(3)]
+            r = [[((I[a, b] - G[i, a, b]) - (I[b, a] - G[i, b, a])) / 2 for b in range(3)] for a in range(3)]
+            ob.append((f'atom {i}: strain == sym(1 - G), rotation == skew(1 - G)', band(*[close(E[i, a, b], e[a][b], 1e-9, 1.0) for a in range(3) for b in range(3)], *[close(R[i, a, b], r[a][b], 1e-9, 1.0) for a in range(3) for b in range(3)])))
+            tr = e[0][0] + e[1][1] + e[2][2]
+            tr2 = sum(e[a][b] * e[b][a] for a in range(3) for b in range(3))
+            det = (e[0][0] * (e[1][1] * e[2][2] - e[1][2] * e[2][1]) - e[0][1] * (e[1][0] * e[2][2] - e[1][2] * e[2][0]) + e[0][2] * (e[1][0] * e[2][1] - e[1][1] * e[2][0]))
+            ob.append((f'atom {i}: invariants == trace, (tr^2 - tr(e^2))/2, det of the strain', band(close(I1[i], tr, 1e-9, 10.0), close(I2[i], (tr * tr - tr2) / 2, 1e-9, 10.0), close(I3[i], det, 1e-9, 10.0))))
+            w2 = r[0][1] * r[0][1] + r[0][2] * r[0][2] + r[1][2] * r[1][2]
+            ob.append((f'atom {i}: angular velocity >= 0 and its square == sum of the squared rotation components', band(W[i] >= 0, close(W[i] * W[i], w2, 1e-9, 10.0))))
+        return ob
+    return fn
+
+
+def h_nye(kind):
+    """Nye tensor for a lattice-correspondence field that varies LINEARLY in space, G(x) = G0 + sum_k A_k x_k (cut: G injected):
+    alpha_jk == - eps_jim dG_mk/dx_i at every atom (the least-squares gradient is exact for a linear field), in particular zero for a
+    uniform G (homogeneous deformation)"""
+    def fn():
+        import atomman as am
+        pos, cutoff, pv, box = _cluster(kind)
+        n = len(pos)
+        s0 = am.System(atoms=am.Atoms(pos=pos), box=box, pbc=(False, False, False))
+        nl = am.NeighborList(system=s0, cutoff=cutoff)
+        st = am.defect.Strain(s0, neighbors=nl, p_vectors=pv.tolist())
+        G0 = [[var(f'g{a}{b}', -2.0, 2.0) for b in range(3)] for a in range(3)]
+        D = [[[var(f'd{a}{b}{k}', -1.0, 1.0) for k in range(3)] for b in range(3)] for a in range(3)]        # D[a][b][k] = dG_ab / dx_k
+        G = np.empty((n, 3, 3), dtype=object)
+        for i in range(n):
+            for a in range(3):
+                for b in range(3):
+                    G[i, a, b] = G0[a][b] + sum(D[a][b][k] * float(pos[i, k]) for k in range(3))
+        st._Strain__G = sa(G) if sx.ctx().concrete is None else np.array(G, dtype=float)
+        nye = st.nye
+        ob = [('nye: one 3x3 tensor per atom', np.shape(nye) == (n, 3, 3))]
+        if np.shape(nye) != (n, 3, 3): return ob
+        eps = {(0, 1, 2): 1, (1, 2, 0): 1, (2, 0, 1): 1, (0, 2, 1): -1, (2, 1, 0): -1, (1, 0, 2): -1}
+        for i in range(n):
+            exp = [[-sum(sg * D[m][k][ii] for (j2, ii, m), sg in eps.items() if j2 == j) for k in range(3)] for j in range(3)]
+            ob.append((f'atom {i}: Nye tensor == - eps_jim dG_mk/dx_i of the linear field', band(*[close(nye[i, j, k], exp[j][k], 1e-9, 10.0) for j in range(3) for k in range(3)])))
+        return ob
+    return fn
+
+
+def h_strain_samples():
+    """CONCRETE SAMPLES (not solver verdicts): the p-vector paths whose symbolic exploration is out of reach (rotated crystal with axes=,
+    p vectors built from a reference system, first + second shell lists: every angular comparison of match_pq goes to the nonlinear
+    solver) on concrete deformation gradients; G == F^-T, strain/rotation from it, vanishing Nye tensor in a periodic crystal"""
+    def fn():
+        import atomman as am
+        ob = []
+        Fs = [np.eye(3) + np.array(e) for e in ([[0.01, 0.02, 0], [-0.01, 0.015, 0.005], [0, 0.01, -0.02]], [[0, 0.03, 0], [0, 0, 0], [0, 0, 0]], [[-0.02, 0, 0.01], [0.02, 0.01, 0], [-0.015, 0.005, 0.03]])]
+        axes = np.array([[3, 4, 0], [-4, 3, 0], [0, 0, 5]], dtype=float)
+        T = axes / np.linalg.norm(axes, axis=1)[:, None]
+        for kind, how in (('sc', 'axes'), ('bcc', 'axes'), ('bcc', 'base'), ('bcc', 'plist'), ('sc', 'nested')):
+            pos, cutoff, pv, box = _cluster(kind)
+            if how == 'axes': pos = np.inner(pos, T)
+            s0 = am.System(atoms=am.Atoms(pos=pos), box=box, pbc=(False, False, False))
+            nl = am.NeighborList(system=s0, cutoff=cutoff)
+            for nf, F in enumerate(Fs):
+                s1 = am.System(atoms=am.Atoms(pos=np.inner(pos, F) + np.array([0.3, -0.2, 0.1])), box=box, pbc=(False, False, False))
+                if how == 'axes': st = am.defect.Strain(s1, neighbors=nl, p_vectors=pv.tolist(), axes=axes)
+                elif how == 'base': st = am.defect.Strain(s1, neighbors=nl, basesystem=s0, baseneighbors=nl)
+                elif how == 'nested': st = am.defect.Strain(s1, neighbors=nl, p_vectors=[pv.tolist()])
+                else: st = am.defect.Strain(s1, neighbors=nl, p_vectors=pv.tolist())
+                try:
+                    G = np.asarray(st.G, dtype=float)
+                except ValueError as e:
+                    ob.append((f'{kind}/{how}, F#{nf}: Strain accepts the documented p-vector input and solves G [{type(e).__name__}: {e}]', False)); continue
+                ob.append((f'{kind}/{how}, F#{nf}: G == F^-T at every atom', bool(G.shape == (len(pos), 3, 3) and np.allclose(G, np.linalg.inv(F).T, atol=1e-9))))
+                ob.append((f'{kind}/{how}, F#{nf}: strain == sym(1 - F^-T), rotation == skew(1 - F^-T)', bool(np.allclose(st.strain, ((np.eye(3) - np.linalg.inv(F).T) + (np.eye(3) - np.linalg.inv(F).T).T) / 2, atol=1e-9) and np.allclose(st.rotation, ((np.eye(3) - np.linalg.inv(F).T) - (np.eye(3) - np.linalg.inv(F).T).T) / 2, atol=1e-9))))
+                ob.append((f'{kind}/{how}, F#{nf}: Nye tensor vanishes for the homogeneous deformation', bool(np.allclose(st.nye, 0, atol=1e-8))))
+        # fully periodic crystal: deformed cell and atoms, Nye tensor zero, G uniform
+        cell = am.System(atoms=am.Atoms(pos=np.array([[0, 0, 0], [0.5, 0.5, 0.5]]), atype=[1, 1]), box=am.Box.cubic(A), scale=True, symbols=['Fe'])
+        s0 = cell.supersize(3, 3, 3)
+        nl = am.NeighborList(system=s0, cutoff=0.9 * A)
+        for nf, F in enumerate(Fs):
+            s1 = am.System(atoms=am.Atoms(pos=np.inner(s0.atoms.pos, F)), box=am.Box(vects=np.inner(s0.box.vects, F)), pbc=(True, True, True))
+            st = am.defect.Strain(s1, neighbors=nl, basesystem=s0, baseneighbors=nl)
+            ob.append((f'periodic bcc 3x3x3, F#{nf}: G == F^-T, Nye == 0', bool(np.allclose(st.G, np.linalg.inv(F).T, atol=1e-9) and np.allclose(st.nye, 0, atol=1e-8))))
+        return ob
+    return fn
+
+
 def setup(mode):
     """np.interp with concrete abscissae and symbolic ordinates (disregistry)"""
     import sys
@@ -254,4 +418,11 @@ def cases(tier, seed=0):
     cs.append(Case('slip_vector_wrapped', h_slip(False, False, (True, False, True), wrap=True), bind=BIND, kernels=KER, maxcases=32, max_paths=40, budget_s=170, timeout_ms=20000, weight=3, descr='slip_vector when the slipped system was wrapped back into the cell (pbc TFT)'))
     cs.append(Case('disregistry', h_disregistry(), bind=BIND, kernels=KER, setup=setup, maxcases=32, budget_s=170, timeout_ms=20000, descr='disregistry across the slip plane equals the imposed slip'))
     cs.append(Case('differential_displacement', h_dd(), bind=BIND, kernels=KER, maxcases=32, budget_s=170, timeout_ms=20000, descr='DifferentialDisplacement: u_j - u_i for every neighbour pair'))
+    KS = KER + ['Strain']
+    cs.append(Case('strain_G_sc_plist', h_strain_G('sc', 'plist'), bind=BIND, kernels=KS, maxcases=8, max_paths=4, budget_s=170, timeout_ms=20000, weight=3,
+                   descr='Strain.G for a symbolic homogeneous deformation gradient (9 entries within 3%) + symbolic translation of a simple-cubic cluster, one p-vector list for all atoms'))
+    cs.append(Case('strain_samples', h_strain_samples(), kernels=KS, concrete_only=True, budget_s=120, descr='CONCRETE SAMPLES: Strain with axes=, basesystem=, two-shell p lists, periodic crystal on three deformation gradients'))
+    cs.append(Case('strain_formulas', h_strain_formulas(), bind=BIND, kernels=KS, maxcases=8, budget_s=120, timeout_ms=20000, descr='strain, rotation, invariants, angular velocity from an arbitrary (injected) G'))
+    for kind in ('sc', 'bcc'):
+        cs.append(Case(f'nye_linear_{kind}', h_nye(kind), bind=BIND, kernels=KS, maxcases=8, budget_s=170, timeout_ms=20000, weight=2, descr=f'Nye tensor of an injected linear G field on a {kind} cluster (zero for uniform G)'))
     return cs
